@@ -332,6 +332,13 @@ func recordPathShape(v ssa.Value) string {
 		return "not a filepath.Join result"
 	}
 	o := model.CalleeObj(join.Common())
+	// a helper of lal that builds the name: every one of its returns has the shape
+	if ce := join.Call.StaticCallee(); ce != nil && model.IsLal(ce) && len(ce.Blocks) > 0 {
+		if allReturnsSatisfy(ce, 0, func(rv ssa.Value) bool { return recordPathShape(rv) == "" }) {
+			return ""
+		}
+		return "the helper " + ce.Name() + " does not return a filepath.Join(<configured dir>, Sprintf(..)) on every path"
+	}
 	if o == nil || o.Pkg() == nil || o.Pkg().Path() != "path/filepath" || o.Name() != "Join" {
 		return "not a filepath.Join result"
 	}
